@@ -11,14 +11,29 @@ import (
 
 // C04 — a utility ranking is exactly the order of the utilities (DESIGN.md 6.C04, A.1).
 
-var c04Levels = []float64{0, 1, 2, 1 + 4e-9, 1 + 6e-9}
+// -1 and 0 are in the grid on purpose: a utility of exactly 0 (and tiers below it) is ordinary with cost criteria
+var c04Levels = []float64{0, 1, 2, 1 + 4e-9, 1 + 6e-9, -1}
+
+func c04LevelsFor(n int, thorough bool) []float64 {
+	switch {
+	case n <= 4:
+		return c04Levels
+	case n == 5 && thorough:
+		return c04Levels
+	case n == 5:
+		return []float64{0, 1, 1 + 6e-9, -1}
+	default:
+		return []float64{0, 1, -1}
+	}
+}
+
 var utilMethods = []string{"weightedSum", "owa", "choquetIntegral"}
 
 func init() {
 	Register(&Property{
 		ID: "C04", Level: "exploration",
-		Rule: "E1 full product: every value function n alternatives -> {0,1,2,1+4e-9,1+6e-9} (n<=5 quick, <=6 thorough) x " +
-			"every permutation of knownAlternatives x every permutation of choseToMake (all n! for n<=4, rotations+reversal above; " +
+		Rule: "E1 full product: every value function n alternatives -> {-1,0,1,2,1+4e-9,1+6e-9} for n<=4 (n=5: {-1,0,1,1+6e-9}; thorough n=5 full, n=6 {-1,0,1}) x " +
+			"every permutation of knownAlternatives x every permutation of choseToMake (independently for n<=3; n=4: all 24 of each combined with identity/same/last of the other, thorough all 576; rotations+reversal above; " +
 			"thorough all n! for n<=5) x {weightedSum,owa,choquetIntegral} x {all considered, one extra known alternative not considered}; " +
 			"plus the exported Ranking() on every weak order of 7 (thorough) / 6 (quick) alternatives. " +
 			"distinct_nontrivial = distinct (method, response) pairs whose ranking has >=2 value classes.",
@@ -193,9 +208,10 @@ func c04Run(s *Shard) {
 	for n := 1; n <= maxN; n++ {
 		ids := ids6[:n]
 		perms := permSet(n, fullPerm)
+		lv := c04LevelsFor(n, !quick(s))
 		dims := make([]int, n)
 		for i := range dims {
-			dims[i] = len(c04Levels)
+			dims[i] = len(lv)
 		}
 		Product(dims, func(idx []int) {
 			if !s.Take() {
@@ -203,7 +219,7 @@ func c04Run(s *Shard) {
 			}
 			vals := make([]float64, n)
 			for i, k := range idx {
-				vals[i] = c04Levels[k]
+				vals[i] = lv[k]
 			}
 			exp := c04Reference(ids, vals)
 			classes := map[float64]bool{}
@@ -211,8 +227,11 @@ func c04Run(s *Shard) {
 				classes[v] = true
 			}
 			for mi, method := range utilMethods {
-				for _, pk := range perms {
-					for _, pc := range perms {
+				for pki, pk := range perms {
+					for pci, pc := range perms {
+						if quick(s) && n == 4 && !(pki == 0 || pci == 0 || pci == pki || pci == len(perms)-1) {
+							continue // n=4 quick: every permutation of each listing, combined with 3 permutations of the other
+						}
 						for _, extra := range []bool{false, true} {
 							if extra && (mi != 0 || n > 4) && quick(s) {
 								continue
@@ -287,7 +306,7 @@ func c04CheckRanking(c *Case) []Violation {
 	vals := make([]float64, n)
 	res := make(model.AlternativeResults, n)
 	for i := range cls {
-		vals[i] = float64(cls[i]) * 0.5
+		vals[i] = float64(cls[i])*0.5 - 1 // classes straddle 0: -1, -0.5, 0, 0.5, ...
 		a := model.AlternativeWithCriteria{Id: ids[i], Criteria: model.Weights{"c1": vals[i]}}
 		res[i] = *model.ValueAlternativeResult(&a, vals[i])
 	}
